@@ -169,7 +169,22 @@ def check_cfg(F, R, cfg):
         for bi, t in view(F, f).calls:
             if re.search(r"scalar::clamp_integer$", cname(t)):
                 sites.append((f, bi, t))
-    R.floor("C07.clamp_sites", I("clamp_integer call sites"), len(sites), 6)
+    R.floor("C07.clamp_sites", I("clamp_integer call sites"), len(sites), 1)
+    # semantic: the five clamped multiplications multiply by the unreduced integer clamp(bytes) (BATCHEQ models, lib/sig_rules.py)
+    import sig_rules as SR
+    ncl = 0
+    for inst, f_, status, msg in SR.clamp_rules(F):
+        if status == "ok":
+            ncl += 1
+            R.ok("C07.sem.clamped", I(inst), msg)
+        elif status == "viol":
+            ncl += 1
+            R.viol("C07.sem.clamped", I(inst), msg, F.loc(f_) if f_ else "")
+        elif status == "missing":
+            R.anchor_missing("C07.sem.clamped", I(inst), msg)
+        else:
+            R.note("C07.sem.clamped %s inconclusive (%s): C07.clamped_paths decides" % (inst, msg[:120]))
+    R.floor("C07.sem.clamped", I("clamped multiplications decided on symbolic inputs"), ncl, 5)
     for f, bi, t in sites:
         fv = view(F, f)
         nm = f["path"].split("curve25519_dalek::")[-1].split("ed25519_dalek::")[-1]
